@@ -132,3 +132,46 @@ def affine_norm(t, scale=1, acc=None):
 def affine_eq(a, b):
     x, y = affine_norm(a), affine_norm(b)
     return x[0] == y[0] and x[1] == y[1]
+
+
+def eval_term(t, env, path=None):
+    """value of a term with every leaf given by env (a class representative); None when some part is not evaluable"""
+    if t in env:
+        return env[t]
+    k = t[0]
+    if k == "int":
+        return t[1]
+    if k == "w":
+        return eval_term(t[1], env, path)
+    if k == "cast":
+        _, a, fb, fs, tb = t
+        v = eval_term(a, env, path)
+        if v is None:
+            return None
+        v &= (1 << fb) - 1
+        if fs and (v >> (fb - 1)) & 1:
+            v -= 1 << fb
+        return v & ((1 << tb) - 1)
+    if k == "un":
+        v = eval_term(t[2], env, path)
+        if v is None:
+            return None
+        bits = t[3] if len(t) > 3 else 64
+        if t[1] == "Not":
+            return (~v) & ((1 << bits) - 1)
+        if t[1] == "Neg":
+            return (-v) & ((1 << bits) - 1)
+        return None
+    if k == "bin":
+        a, b = eval_term(t[2], env, path), eval_term(t[3], env, path)
+        if a is None or b is None:
+            return None
+        signed = bool(path.tags.get(("signed", t))) if path is not None else False
+        wa = A.width_of(t[2])
+        return A.fold(t[1], a, b, wa, signed, t[4])
+    if k == "ret" and t[1] in ("min", "max") and len(t[2]) == 2:
+        a, b = eval_term(t[2][0], env, path), eval_term(t[2][1], env, path)
+        if a is None or b is None:
+            return None
+        return min(a, b) if t[1] == "min" else max(a, b)
+    return None
